@@ -572,6 +572,43 @@ pub fn generate(repo: &PathBuf) -> Result<String, String> {
         return Err(format!("next_keys_to_fetch: cap comparisons are {caps:?}, expected [\">=\", \"<\", \">=\"]"));
     }
 
+    // order of the pruning call and the empty-queue early return (top-level statements of next_keys_to_fetch)
+    let mut prune_at: Vec<usize> = vec![];
+    let mut empty_ret_at: Vec<usize> = vec![];
+    let mut other_ret_at: Vec<usize> = vec![];
+    for (i, st) in next.block.stmts.iter().enumerate() {
+        let t = quote::ToTokens::to_token_stream(st).to_string().replace(' ', "");
+        if t == "self.prune_expired_keys_and_slow_nodes();" {
+            prune_at.push(i);
+        } else if let syn::Stmt::Expr(syn::Expr::If(ifx), _) = st {
+            let body = quote::ToTokens::to_token_stream(&ifx.then_branch).to_string().replace(' ', "");
+            if body.contains("return") {
+                let c = toks(&ifx.cond);
+                if c == "self.to_be_fetched.is_empty()" || c == "self.to_be_fetched.len()==0" {
+                    empty_ret_at.push(i);
+                } else {
+                    other_ret_at.push(i);
+                }
+            }
+        } else if matches!(st, syn::Stmt::Expr(syn::Expr::Return(_), _)) {
+            other_ret_at.push(i);
+        }
+    }
+    let all_prune_calls = quote::ToTokens::to_token_stream(&next.block).to_string().replace(' ', "").matches("prune_expired_keys_and_slow_nodes(").count();
+    if prune_at.len() != 1 || all_prune_calls != 1 || empty_ret_at.len() > 1 {
+        return Err(format!(
+            "next_keys_to_fetch: expected one top-level `self.prune_expired_keys_and_slow_nodes();` and at most one empty-queue early return (found {} / {} calls, {} returns)",
+            prune_at.len(), all_prune_calls, empty_ret_at.len()
+        ));
+    }
+    if other_ret_at.iter().any(|i| *i < prune_at[0]) {
+        return Err("next_keys_to_fetch: an early return other than the empty-queue one precedes the pruning call".into());
+    }
+    let prune_before_empty_return = match empty_ret_at.first() {
+        None => true,
+        Some(i) => *i > prune_at[0],
+    };
+
     let mut s = header(rel);
     s.push_str("namespace SafeNet.Gen.Fetcher\n");
     s.push_str(&format!("/-- `MAX_PARALLEL_FETCH` = libp2p-kad `K_VALUE.get()` -/\ndef maxParallelFetch : Nat := {mpf}\n"));
@@ -585,6 +622,7 @@ pub fn generate(repo: &PathBuf) -> Result<String, String> {
     s.push_str(&lean_cmp("farthestKeep", "set_farthest_on_full: `dist OP new_farthest_distance` retains an entry, both queues (a = distance, b = new farthest)", &keep_op)?);
     s.push_str(&format!("/-- add_keys: the single-key fast path inserts only through `Entry::Vacant` of on_going_fetches -/\ndef fastPathChecksOngoing : Bool := {}\n", lean_bool(fast_checks_ongoing)));
     s.push_str(&format!("/-- add_keys: a locally held key is skipped only when the held record type equals the advertised one -/\ndef skipHeldSameTypeOnly : Bool := {}\n", lean_bool(skip_same_type_only)));
+    s.push_str(&format!("/-- next_keys_to_fetch: `prune_expired_keys_and_slow_nodes` runs before the `to_be_fetched.is_empty()` early return (or there is no such return); false = the early return comes first -/\ndef pruneBeforeEmptyQueueReturn : Bool := {}\n", lean_bool(prune_before_empty_return)));
     s.push_str("end SafeNet.Gen.Fetcher\n");
     Ok(s)
 }
